@@ -675,4 +675,37 @@ func TestC14Edge(t *testing.T) {
 			}
 		}
 	}
+	// (5) interceptors built one after the other keep their own configuration: building a second one (other limiter, other classifier)
+	// changes nothing about the first
+	{
+		log := &lockedLog{}
+		l1 := &lkLimiter{id: 1, grant: true, log: log}
+		l2 := &lkLimiter{id: 2, grant: false, log: log}
+		cls2 := func(ctx context.Context, method string, req interface{}, l core.Limiter) (interface{}, codes.Code, error) {
+			return nil, codes.Unavailable, fmt.Errorf("second")
+		}
+		srv := gclgrpc.UnaryServerInterceptor(gclgrpc.WithLimiter(l1))
+		cli := gclgrpc.UnaryClientInterceptor(gclgrpc.WithLimiter(l2), gclgrpc.WithLimitExceededResponseClassifier(cls2))
+		srv2 := gclgrpc.UnaryServerInterceptor(gclgrpc.WithLimiter(l2), gclgrpc.WithLimitExceededResponseClassifier(cls2))
+		_ = srv2
+		called := 0
+		resp, err := srv(context.Background(), "req", &grpc.UnaryServerInfo{FullMethod: "/m"}, func(ctx context.Context, req interface{}) (interface{}, error) {
+			called++
+			return "resp", nil
+		})
+		cliCalled := 0
+		cerr := cli(context.Background(), "/m", "req", "reply", nil, func(ctx context.Context, method string, req, reply interface{}, cc *grpc.ClientConn, opts ...grpc.CallOption) error {
+			cliCalled++
+			return nil
+		})
+		rep.Evaluations += 2
+		rep.Distinct("interceptors-side-by-side", "server+client+server")
+		if called != 1 || err != nil || resp != "resp" || log.count(1, 1) != 1 || log.count(4, 1) != 1 {
+			rep.Violate("grpc:config-shared", fmt.Sprintf("server interceptor built with limiter 1 (grants), then two more interceptors built with limiter 2 (refuses): the first made %d calls, returned (%v, %v), asked limiter 1 %d times, limiter 2 %d times",
+				called, resp, err, log.count(1, 1), log.count(1, 2)), map[string]interface{}{"component": "grpc", "case": "side-by-side"})
+		}
+		if st, _ := status.FromError(cerr); cliCalled != 0 || cerr == nil || st.Code() != codes.Unavailable {
+			rep.Violate("grpc:config-shared", fmt.Sprintf("client interceptor built with a refusing limiter and classifier code Unavailable: %d calls made, returned %v", cliCalled, cerr), map[string]interface{}{"component": "grpc", "case": "side-by-side-client"})
+		}
+	}
 }
